@@ -81,7 +81,7 @@ func (h *DirHandler) AddOut(msg *fbb.Message) error {
 		return err
 	}
 
-	return ioutil.WriteFile(path.Join(h.MBoxPath, DIR_OUTBOX, msg.MID()+Ext), data, 0644)
+	return writeFile(path.Join(h.MBoxPath, DIR_OUTBOX, msg.MID()+Ext), data, 0644)
 }
 
 func (h *DirHandler) ProcessInbound(msgs ...*fbb.Message) (err error) {
@@ -99,7 +99,7 @@ func (h *DirHandler) ProcessInbound(msgs ...*fbb.Message) (err error) {
 			return err
 		}
 
-		if err = ioutil.WriteFile(filename, data, 0664); err != nil {
+		if err = writeFile(filename, data, 0664); err != nil {
 			return fmt.Errorf("Unable to write received message (%s): %s", filename, err)
 		}
 	}
@@ -315,5 +315,29 @@ func SetUnread(msg *fbb.Message, unread bool) error {
 	if filePath == "" {
 		return fmt.Errorf("Missing X-FilePath header")
 	}
-	return ioutil.WriteFile(filePath, data, 0644)
+
+	perm := os.FileMode(0644)
+	if fi, err := os.Stat(filePath); err == nil {
+		perm = fi.Mode().Perm()
+	}
+	return writeFile(filePath, data, perm)
+}
+
+// writeFile writes a message file so that it is either complete or does not exist (under its
+// name) if the process dies: the data is written to a temporary file in the same directory which
+// is then renamed to filename. The temporary name starts with a dot and does not end in Ext, so
+// LoadMessageDir never lists a half-written message and GetInboundAnswer never takes it for a
+// received one.
+func writeFile(filename string, data []byte, perm os.FileMode) error {
+	dir, name := path.Split(filename)
+	tmp := path.Join(dir, "."+name+".tmp")
+
+	err := ioutil.WriteFile(tmp, data, perm)
+	if err == nil {
+		err = os.Rename(tmp, filename)
+	}
+	if err != nil {
+		os.Remove(tmp)
+	}
+	return err
 }
